@@ -8,8 +8,12 @@ package benchfmt
 import (
 	"bytes"
 	"encoding/json"
+	"math"
 	"os"
+	"strconv"
 	"testing"
+	"unicode"
+	"unicode/utf8"
 )
 
 type verifArg struct {
@@ -91,9 +95,87 @@ func TestVerifReplay(t *testing.T) {
 		if b := n.Base(); !bytes.Equal(b, wantBase) {
 			fail("Base(%q) = %q, want %q", orig, b, wantBase)
 		}
+	case "benchfmt.atof":
+		x := in.Args[0].bytes()
+		got, gerr := atof(x)
+		want, werr := strconv.ParseFloat(string(x), 64)
+		if (gerr == nil) != (werr == nil) {
+			fail("atof(%q): error %v, strconv %v", x, gerr, werr)
+		} else if math.Float64bits(got) != math.Float64bits(want) && !(math.IsNaN(got) && math.IsNaN(want)) {
+			fail("atof(%q) = %v (%#x), strconv.ParseFloat = %v (%#x)", x, got, math.Float64bits(got), want, math.Float64bits(want))
+		}
+	case "benchfmt.parseKeyValueLine":
+		line := in.Args[0].bytes()
+		key, val, ok := parseKeyValueLine(line)
+		wk, wv, wok := verifRefKeyValue(line)
+		if ok != wok || (ok && (!bytes.Equal(key, wk) || !bytes.Equal(val, wv))) {
+			fail("parseKeyValueLine(%q) = %q, %q, %v; want %q, %q, %v", line, key, val, ok, wk, wv, wok)
+		}
+	case "benchfmt.splitField":
+		x := in.Args[0].bytes()
+		field, rest := splitField(x)
+		wf, wr := verifRefSplitField(x)
+		if !bytes.Equal(field, wf) || !bytes.Equal(rest, wr) {
+			fail("splitField(%q) = %q, %q; want %q, %q", x, field, rest, wf, wr)
+		}
 	default:
 		t.Log("NO-ORACLE for", in.Fn)
 	}
+}
+
+// verifRefKeyValue: the format's rule for configuration lines, rune by rune.
+func verifRefKeyValue(line []byte) (key, val []byte, ok bool) {
+	s := string(line)
+	colon := -1
+	for i, r := range s {
+		if i == 0 && !unicode.IsLower(r) {
+			return nil, nil, false
+		}
+		if unicode.IsSpace(r) || unicode.IsUpper(r) {
+			return nil, nil, false
+		}
+		if i > 0 && r == ':' {
+			colon = i
+			break
+		}
+	}
+	if colon < 0 {
+		return nil, nil, false
+	}
+	rest := line[colon+1:]
+	if len(rest) == 0 {
+		return line[:colon], rest, true
+	}
+	j := 0
+	for j < len(rest) && (rest[j] == ' ' || rest[j] == '\t') {
+		j++
+	}
+	if j == 0 {
+		return nil, nil, false
+	}
+	return line[:colon], rest[j:], true
+}
+
+// verifRefSplitField: first white-space-free run, then the text after the following white space.
+func verifRefSplitField(x []byte) (field, rest []byte) {
+	s := string(x)
+	end := len(s)
+	for i, r := range s {
+		if unicode.IsSpace(r) {
+			end = i
+			break
+		}
+	}
+	field = x[:end]
+	tail := s[end:]
+	for len(tail) > 0 {
+		r, n := utf8.DecodeRuneInString(tail)
+		if !unicode.IsSpace(r) {
+			break
+		}
+		tail = tail[n:]
+	}
+	return field, []byte(tail)
 }
 
 // verifRefParts is the reference decomposition, written from the format's
